@@ -393,7 +393,7 @@ inline Case from_bytes(const uint8_t* data, size_t size, int forced_kind = -1)
         Op      o;
         uint8_t h = r.u8();
         o.code    = h % O_COUNT;
-        o.splice  = false;
+        o.splice  = h >= 224; // twin-noop mode only: a call the second instance makes in addition (ignored elsewhere)
         uint8_t a = r.u8();
         switch (o.code)
         {
